@@ -396,3 +396,23 @@ def decode(bs):
         else:
             out.append((nm,)); i += 1
     return out
+
+
+def machine_wf(p):
+    """could the machine construct this (expanded) pattern: Mu bodies positive, substitutions and metavariables well-formed"""
+    k = p[0]
+    if k in ('evar', 'svar', 'sym'):
+        return True
+    if k == 'mv':
+        return not any(h in p[2] for h in p[6])
+    if k in ('imp', 'app'):
+        return machine_wf(p[1]) and machine_wf(p[2])
+    if k == 'ex':
+        return machine_wf(p[2])
+    if k == 'mu':
+        return machine_wf(p[2]) and positive(p[2], p[1])
+    if k == 'esub':
+        return (is_meta(p[1]) and p[3] != ('evar', p[2]) and not e_fresh(p[1], p[2]) and machine_wf(p[1]) and machine_wf(p[3]))
+    if k == 'ssub':
+        return (is_meta(p[1]) and p[3] != ('svar', p[2]) and not s_fresh(p[1], p[2]) and machine_wf(p[1]) and machine_wf(p[3]))
+    raise ValueError(p)
